@@ -3,7 +3,7 @@
    independence of the position: the model reads only the six bits of the slice, and windows /
    chunks hand out exactly the triplets (C11). *)
 From Coq Require Import List NArith Bool Arith.
-From BioSeq Require Import Bits Codec Tables Spec SeqModel SeqProofs IterProofs Translate.
+From BioSeq Require Import Bits Codec Tables Spec SeqModel SeqProofs IterProofs Translate History.
 Import ListNotations.
 
 Theorem C13_standard_table_is_ncbi1 : forall (amino : codec) (tab : list (option N)),
@@ -31,8 +31,18 @@ Theorem C13_chunks_of_three : forall (C : codec), codec_ok C -> forall xs : list
   Some (Done (map (fun k => encode (c_bits C) (sub xs (k * 3) 3)) (seq 0 (length xs / 3)))).
 Proof. intros C OK xs. apply (chunks_spec_seq C OK xs 3). repeat constructor. Qed.
 
+(* consequently: translating ANY DNA sequence by windows of three gives, position by position, the
+   table entry of the corresponding triplet *)
+Theorem C13_windows_translate_positionwise : forall (C : codec), codec_ok C -> c_bits C = 2 ->
+  forall (amino : codec) (xs : list N), Forall (fun x => (x < 4)%N) xs ->
+  exists ws, windows C (encode (c_bits C) xs) 3 = Some (Done ws) /\
+             mapM (to_amino C amino) ws =
+             mapM (fun i => un_bits amino (codon_value xs i)) (seq 0 (length xs + 1 - 3)).
+Proof. exact windows_translate. Qed.
+
 Print Assumptions C13_standard_table_is_ncbi1.
 Print Assumptions C13_to_amino_reads_the_codon.
 Print Assumptions C13_wrong_length_refused.
 Print Assumptions C13_windows_of_three.
 Print Assumptions C13_chunks_of_three.
+Print Assumptions C13_windows_translate_positionwise.
